@@ -153,7 +153,7 @@ func checkC05(r *Report) {
 	p := loadResolve("", true)
 	e := runEffect(p)
 	effectTrusted(r)
-	r.Explain = "Ownership/effect analysis on go/ssa over everything reachable (VTA call graph) from the three Resolve methods. C05.a OWN: every value obtained from a resolve.Client interface call (and from a resolver-lifetime lru cache) is tracked with direct/deep origin facts through fields, slices, maps, closures, local cells (flow- and field-sensitive) and function summaries; every primitive write site (store, map update, append, copy, sort.*/slices.* mutators) whose region type could be client or cache memory must never see such an origin. C05.b READ-PURE: the resolve.Client methods of each implementing type write nothing reachable from their receiver (one whitelisted field, lock-guarded). C05.c RESOLVER-STATE: no field of a resolver is written after construction and Resolve stores to no package-level variable. C05.d CACHE-PURE: a function that adds to a resolver-lifetime lru cache reads (transitively, closures included) no per-call field of the struct that holds the cache, so a cached value is a function of its key and the client only and cannot carry one resolution's root into the next. C05.e CACHE-ON-SUCCESS: a value produced by a call that also returns an error is added to a resolver-lifetime cache only where that error is known to be nil, so a failed computation is not replayed as a success by later resolutions. This decides the structural clause 'resolution never mutates what the client handed out or resolver-lifetime state'; it does not decide equality of graphs."
+	r.Explain = "Ownership/effect analysis on go/ssa over everything reachable (VTA call graph) from the three Resolve methods. C05.a OWN: every value obtained from a resolve.Client interface call (and from a resolver-lifetime lru cache) is tracked with direct/deep origin facts through fields, slices, maps, closures, local cells (flow- and field-sensitive) and function summaries; every primitive write site (store, map update, append, copy, sort.*/slices.* mutators) whose region type could be client or cache memory must never see such an origin. C05.b READ-PURE: the resolve.Client methods of each implementing type write nothing reachable from their receiver (one whitelisted field, lock-guarded). C05.c RESOLVER-STATE: no field of a resolver is written after construction and Resolve stores to no package-level variable. C05.d CACHE-PURE: a function that adds to a resolver-lifetime lru cache reads (transitively, closures included) no per-call field of the struct that holds the cache, so a cached value is a function of its key and the client only and cannot carry one resolution's root into the next. C05.f CACHE-KEY: the value added to a resolver-lifetime cache is computed from the key it is stored under: in a backward slice of the value (stopping at the key itself) the only parameters of the filling function that appear, besides the receiver and the context, are the key, so no two inputs with different results share an entry. C05.e CACHE-ON-SUCCESS: a value produced by a call that also returns an error is added to a resolver-lifetime cache only where that error is known to be nil, so a failed computation is not replayed as a success by later resolutions. This decides the structural clause 'resolution never mutates what the client handed out or resolver-lifetime state'; it does not decide equality of graphs."
 	r.Assume = []string{"out-of-scope callees (std, grpc, protobuf) do not write memory reachable from their arguments unless modelled", "values returned by resolve.Client implementations alias client state (worst case)"}
 	roots := resolveRoots(p)
 	r.floor("C05.a/OWN", "Resolve methods of resolve.Resolver implementations", len(roots), 3)
@@ -179,6 +179,7 @@ func checkC05(r *Report) {
 	cachePureRule(r, p, e)
 	// C05.e
 	cacheOnSuccessRule(r, p)
+	cacheKeyRule(r, p)
 	r.Stats["functions_in_scope"] = len(p.Funcs)
 	r.Stats["functions_reachable_from_Resolve"] = len(reach)
 	r.Stats["summary_passes"] = e.passes
@@ -605,4 +606,157 @@ func errKnownNil(f *ssa.Function, pc *ssa.Call, at *ssa.Call) bool {
 		}
 	}
 	return false
+}
+
+// cacheKeyRule (C05.f): cache.Add(k, v): v depends on the parameters of the
+// filling function only through k.
+func cacheKeyRule(r *Report, p *Prog) {
+	rule := "C05.f/CACHE-KEY"
+	n := 0
+	perFn := map[*ssa.Function]int{}
+	// cell returns the parameter a value is a verbatim copy of: the parameter
+	// itself, or a load of the local cell the parameter was spilled to.
+	paramOf := func(v ssa.Value) *ssa.Parameter {
+		switch x := v.(type) {
+		case *ssa.Parameter:
+			return x
+		case *ssa.UnOp:
+			if x.Op == token.MUL {
+				if al, ok := x.X.(*ssa.Alloc); ok {
+					if q, ok := singleStore(al).(*ssa.Parameter); ok {
+						return q
+					}
+				}
+			}
+		}
+		return nil
+	}
+	for _, f := range p.Funcs {
+		if f.Synthetic != "" {
+			continue
+		}
+		for _, b := range f.Blocks {
+			for _, in := range b.Instrs {
+				call, ok := in.(*ssa.Call)
+				if !ok {
+					continue
+				}
+				sc := call.Common().StaticCallee()
+				if sc == nil || !isLruMethod(sc, "Add") || len(call.Common().Args) < 3 {
+					continue
+				}
+				n++
+				perFn[f]++
+				k, v := call.Common().Args[1], call.Common().Args[2]
+				keyParam := paramOf(k)
+				// backward slice of v
+				seen := map[ssa.Value]bool{}
+				var foreign []string
+				var walk func(x ssa.Value, depth int)
+				walk = func(x ssa.Value, depth int) {
+					if x == nil || seen[x] || depth > 60 {
+						return
+					}
+					seen[x] = true
+					if x == k {
+						return
+					}
+					if q := paramOf(x); q != nil {
+						if keyParam != nil && q == keyParam {
+							return
+						}
+						if q.Parent() == f {
+							isRecv := f.Signature.Recv() != nil && len(f.Params) > 0 && q == f.Params[0]
+							isCtx := strings.HasSuffix(q.Type().String(), "context.Context")
+							if !isRecv && !isCtx {
+								foreign = append(foreign, q.Name())
+							}
+						}
+						return
+					}
+					switch y := x.(type) {
+					case *ssa.Alloc:
+						// everything stored into the cell (or into its fields/elements)
+						if y.Referrers() != nil {
+							for _, rf := range *y.Referrers() {
+								switch z := rf.(type) {
+								case *ssa.Store:
+									if z.Addr == y {
+										walk(z.Val, depth+1)
+									}
+								case *ssa.FieldAddr, *ssa.IndexAddr:
+									if zr := z.(ssa.Value).Referrers(); zr != nil {
+										for _, r2 := range *zr {
+											if st, ok := r2.(*ssa.Store); ok && st.Addr == z.(ssa.Value) {
+												walk(st.Val, depth+1)
+											}
+										}
+									}
+								}
+							}
+						}
+						return
+					case *ssa.MakeClosure:
+						for _, bnd := range y.Bindings {
+							walk(bnd, depth+1)
+						}
+						return
+					case *ssa.Const, *ssa.Global, *ssa.Function, *ssa.Builtin, *ssa.FreeVar:
+						return
+					}
+					if ins, ok := x.(ssa.Instruction); ok {
+						for _, op := range ins.Operands(nil) {
+							if *op != nil {
+								walk(*op, depth+1)
+							}
+						}
+					}
+				}
+				walk(v, 0)
+				// the lookups of the same cache in this function use the same key
+				cacheField := nearestField(call.Common().Args[0])
+				for _, b2 := range f.Blocks {
+					for _, in2 := range b2.Instrs {
+						g, ok := in2.(*ssa.Call)
+						if !ok || g.Common().StaticCallee() == nil || !isLruMethod(g.Common().StaticCallee(), "Get") || len(g.Common().Args) < 2 {
+							continue
+						}
+						if nearestField(g.Common().Args[0]) != cacheField {
+							continue
+						}
+						gk := g.Common().Args[1]
+						same := gk == k || (paramOf(gk) != nil && paramOf(gk) == keyParam)
+						gkey := fmt.Sprintf("%s: lookup and store #%d use the same key", fnKey(f), perFn[f])
+						if same {
+							r.ok(rule, gkey, p.pos(g.Pos()), "Get and Add are given the same value")
+						} else {
+							r.bad(rule, gkey, p.pos(g.Pos()), "the cache is looked up under one value and filled under another: a lookup can hit an entry that was computed for a different input")
+						}
+					}
+				}
+				sort.Strings(foreign)
+				foreign = uniqStrings(foreign)
+				key := fmt.Sprintf("%s: value cached under its key #%d", fnKey(f), perFn[f])
+				switch {
+				case len(foreign) > 0 && keyParam != nil:
+					r.bad(rule, key, p.pos(call.Pos()), fmt.Sprintf("the cached value is computed from parameter(s) %v but stored under %s: inputs that differ there share one entry, so whichever was seen first decides the result for the others", foreign, keyParam.Name()))
+				case len(foreign) > 0:
+					r.bad(rule, key, p.pos(call.Pos()), fmt.Sprintf("the cached value is computed from parameter(s) %v, but the key it is stored under is a derived value, not that input: inputs that map to the same key while giving different results share one entry", foreign))
+				default:
+					r.ok(rule, key, p.pos(call.Pos()), "the value depends on the function's inputs only through the key")
+				}
+			}
+		}
+	}
+	r.floor(rule, "call sites that add to a resolver-lifetime cache", n, 3)
+}
+
+func uniqStrings(s []string) []string {
+	var out []string
+	for i, x := range s {
+		if i == 0 || x != s[i-1] {
+			out = append(out, x)
+		}
+	}
+	return out
 }
